@@ -16,7 +16,7 @@ def lc : PList Nat := { offs := [0, 1], valid := [true], vals := [5] }
 def ld : PList Nat := { offs := [3, 4], valid := [true], vals := [0, 0, 0, 4] }
 def s2 : PStruct Nat := { valid := [true], kids := [{ fa with list := lc }, { fb with list := ld }] }
 def sEmpty : PStruct Nat := { valid := [], kids := [{ fa with list := { offs := [0], valid := [], vals := [] } },
-                                                   { fb with list := { offs := [7], valid := [], vals := [] } }] }
+                                                   { fb with list := { offs := [7], valid := [], vals := [1, 1, 1, 1, 1, 1, 1, 1] } }] }
 /-- three chunks, one of them empty -/
 def c1 : PCol Nat := { ty := [("a", "int64"), ("b", "int64")], chunks := [s1, sEmpty, s2] }
 
